@@ -671,10 +671,11 @@ def _run_weak_sim(
     if noise_model is None or all(proc["strength"] == 0 for proc in noise_model.processes):
         sim_params.num_traj = 1
     else:
+        # Refuse before touching the parameter object, so that a refused run leaves it unchanged
+        assert not sim_params.get_state, "Cannot return state in noisy circuit simulation due to stochastics."
         # Map "shots" to "independent trajectories of length 1"
         sim_params.num_traj = sim_params.shots
         sim_params.shots = 1
-        assert not sim_params.get_state, "Cannot return state in noisy circuit simulation due to stochastics."
 
     # Create worker-global payload
     payload: dict[str, Any] = {
